@@ -1,6 +1,7 @@
 package main
 
 import (
+	"math"
 	"bytes"
 	"crypto/aes"
 	"encoding/binary"
@@ -359,7 +360,8 @@ func (w *World) dumpInbox(eui protocol.EUI) string {
 	}
 	var s []string
 	for i := len(l) - 1; i >= 0; i-- { // oldest first
-		s = append(s, "#"+hx(l[i].Data))
+		s = append(s, fmt.Sprintf("#%s@%x:%d:%d:%.3f:%s:%x", hx(l[i].Data), uint64(l[i].GatewayEUI.ToInt64()), l[i].RSSI,
+			int64(math.Round(float64(l[i].SNR)*8000)), l[i].Frequency, l[i].DataRate, l[i].DevAddr.ToUint32()))
 	}
 	return "inbox " + euiN(eui) + " [" + strings.Join(s, ",") + "]"
 }
